@@ -75,6 +75,26 @@ UnJCheck(r, idx) ==
    If(e[1] /\ (r.ok # 1 \/ r.out # e[2]), V("C17", idx, "unj", "escape sequence not decoded to the expected UTF-8", <<r.units, r.ok, r.out>>, e[2]))
    \o If(~e[1] /\ r.ok = 1, V("C17", idx, "unj", "lone surrogate accepted", r.units, r.out))
 
+\* the example's JSON string unescaping (src/example/pegtl/json_unescape.hpp): tokens of a string literal -- kind 1 a literal
+\* byte, kind 2 a simple escape (value: the character behind the backslash), kind 3 a \uXXXX unit; consecutive units form
+\* one run that is decoded like UnJ
+EscMap(c) == CASE c = 98 -> 8 [] c = 102 -> 12 [] c = 110 -> 10 [] c = 114 -> 13 [] c = 116 -> 9 [] OTHER -> c      \* b f n r t; " \ / stand for themselves
+RECURSIVE RunEnd(_, _)
+RunEnd(tk, i) == IF i < Len(tk) /\ tk[i + 1] = 3 THEN RunEnd(tk, i + 1) ELSE i
+RECURSIVE JDec(_, _, _)
+JDec(tk, tv, i) ==
+   IF i > Len(tk) THEN <<TRUE, <<>>>>
+   ELSE IF tk[i] = 3
+   THEN LET j == RunEnd(tk, i)
+            e == UnJ(SubSeq(tv, i, j), 1)
+            rest == JDec(tk, tv, j + 1)
+        IN <<e[1] /\ rest[1], e[2] \o rest[2]>>
+   ELSE LET rest == JDec(tk, tv, i + 1) IN <<rest[1], <<IF tk[i] = 1 THEN tv[i] ELSE EscMap(tv[i])>> \o rest[2]>>
+JStr(r, idx) ==
+   LET e == JDec(r.tk, r.tv, 1) IN
+   If(e[1] /\ (r.ok # 1 \/ r.out # e[2]), V("C17", idx, "jstr", "JSON string not unescaped to the expected bytes", <<r.tk, r.tv, r.ok, r.out>>, e[2]))
+   \o If(~e[1] /\ r.ok = 1, V("C17", idx, "jstr", "JSON string with a lone surrogate escape accepted", <<r.tk, r.tv>>, r.out))
+
 HexVal(b) == IF b >= 48 /\ b <= 57 THEN b - 48 ELSE IF b >= 97 /\ b <= 102 THEN b - 87 ELSE b - 55
 \* value of a hex digit string as 16-bit limbs <<v3, v2, v1, v0>> of the low 64 bits
 RECURSIVE HexLimbs(_, _, _)
@@ -280,6 +300,7 @@ Check(r, idx) ==
    CASE r.f = "lines" -> Lines(r, idx)
      [] r.f = "u8app" -> U8App(r, idx)
      [] r.f = "unj"   -> UnJCheck(r, idx)
+     [] r.f = "jstr"  -> JStr(r, idx)
      [] r.f = "unu"   -> UnU(r, idx)
      [] r.f = "unx"   -> UnX(r, idx)
      [] r.f = "unhex" -> UnHex(r, idx)
